@@ -45,6 +45,7 @@ inductive PC
   | s2r   -- woken: retake the condition's lock, leave `with` (free it), `serve` returns
   | s3    -- leave `with` after a successful try-lock (free the condition's lock)
   | p0    -- `data = self._channel.poll(timeout) and self._channel.recv()`
+  | x0    -- `except EOFError: self.close(); raise` (poll/recv met the end of the stream)
   | r0    -- `self._recvlock.release()`
   | n0    -- `with self._recv_event:` in the `finally`
   | n1    -- `self._recv_event.notify_all()`
@@ -65,6 +66,7 @@ inductive PC
 inductive Outcome
   | value (exc : Option Bool) (obj : Option Nat)   -- what `value` read from `_is_exc`, `_obj`
   | timeout                                        -- `AsyncResultTimeout`
+  | eof                                            -- `EOFError`: the stream ended / the connection is closed
   deriving DecidableEq, Repr
 
 /-- thread-local state -/
@@ -77,6 +79,7 @@ structure Loc where
   wdl : Option Time := none       -- absolute deadline of `Condition.wait`
   data : Option Frame := none     -- the frame this thread received
   cb : Option Seq := none         -- the callback (= result cell) popped by `_seq_request_callback`
+  raising : Bool := false         -- an `EOFError` is propagating out of `serve` (through its `finally`)
   result : Option Outcome := none -- outcome of the last finished call (for `seq`)
   deriving Repr
 
@@ -104,6 +107,8 @@ structure St where
   seqCounter : Nat := 0                  -- `_seqcounter`
   now : Time := 0
   outstanding : List Seq := []           -- requests the peer has received and not answered
+  eof : Bool := false                    -- the peer has closed the stream (after the frames already in `chan`)
+  closed : Bool := false                 -- `Connection.close()` ran: `_closed`, channel closed, callbacks cleared
   -- ghost history
   issued : List Seq := []                -- every seq `_get_seq_id` has handed out, newest first
   nsent : Nat := 0                       -- frames the peer has sent so far
@@ -121,6 +126,7 @@ inductive Actor
   | stop (t : Tid)                      -- `_active` is false at the loop test
   | run (t : Tid)                       -- thread `t` executes its next line
   | peer (q : Seq) (exc : Bool) (v : Nat)   -- the peer answers an outstanding request
+  | peerEof                             -- the peer closes the stream
   | tick (d : Nat)                      -- time passes
   deriving DecidableEq, Repr
 
@@ -150,8 +156,12 @@ def doCall (s : St) (t : Tid) (l : Loc) (tmo : Option Nat) : St :=
 def doC1 (s : St) (t : Tid) (l : Loc) : St :=
   setLoc (setCell s l.seq { s.cells l.seq with reg := true }) t { l with pc := .c2 }
 
+/-- `_send` on a closed channel raises `EOFError`; `_async_request` pops the callback and re-raises -/
 def doC2 (s : St) (t : Tid) (l : Loc) : St :=
-  { setLoc s t { l with pc := if l.tmo.isSome then .c3 else .w0 } with outstanding := s.outstanding ++ [l.seq] }
+  if s.closed then
+    setLoc (setCell s l.seq { s.cells l.seq with reg := false }) t { l with pc := .idle, result := some .eof }
+  else
+    { setLoc s t { l with pc := if l.tmo.isSome then .c3 else .w0 } with outstanding := s.outstanding ++ [l.seq] }
 
 def doC3 (s : St) (t : Tid) (l : Loc) : St :=
   setLoc (setCell s l.seq { s.cells l.seq with ttl := l.tmo.map (s.now + ·) }) t { l with pc := .w0 }
@@ -184,11 +194,24 @@ def doS2r (s : St) (t : Tid) (l : Loc) : Option St :=
 def doS3 (s : St) (t : Tid) (l : Loc) : St :=
   { setLoc s t { l with pc := .p0 } with condLock := none }
 
+/-- a locally closed channel raises at once; otherwise pending frames are delivered first, then the end of
+the stream (readable, `recv` raises `EOFError`), then the timeout -/
 def doP0 (s : St) (t : Tid) (l : Loc) : Option St :=
+  if s.closed then some (setLoc s t { l with pc := .x0, data := none }) else
   match s.chan with
   | f :: rest => some { setLoc s t { l with pc := .r0, data := some f } with
                         chan := rest, fstat := fun k => if k = f.id then .held t else s.fstat k }
-  | [] => if expiredAt l.dl s.now then some (setLoc s t { l with pc := .r0, data := none }) else none
+  | [] => if s.eof then some (setLoc s t { l with pc := .x0, data := none })
+          else if expiredAt l.dl s.now then some (setLoc s t { l with pc := .r0, data := none }) else none
+
+/-- `self.close()` (atomic here): the first caller marks the connection closed, spends one sequence number on
+its `HANDLE_CLOSE` request (nobody answers it), closes the channel and clears the callbacks table; later
+callers return at once.  Then `raise`: the `EOFError` leaves `serve` through its `finally`. -/
+def doX0 (s : St) (t : Tid) (l : Loc) : St :=
+  if s.closed then setLoc s t { l with pc := .r0, raising := true }
+  else { setLoc s t { l with pc := .r0, raising := true } with
+         closed := true, seqCounter := s.seqCounter + 1,
+         cells := fun q => { s.cells q with reg := false } }
 
 def doR0 (s : St) (t : Tid) (l : Loc) : St :=
   { setLoc s t { l with pc := .n0 } with recvLock := none }
@@ -202,10 +225,16 @@ def doN1 (s : St) (t : Tid) (l : Loc) : St :=
 def doN2 (s : St) (t : Tid) (l : Loc) : St :=
   { setLoc s t { l with pc := .d0 } with condLock := none }
 
+/-- after the `finally`: dispatch the frame, or return `False`, or let the `EOFError` out: a client's call
+ends with it, a background thread dies (`_bg_server` re-raises) -/
 def doD0 (s : St) (t : Tid) (l : Loc) : St :=
   match l.data with
-  | none => setLoc s t (leaveServe l)
   | some _ => setLoc s t { l with pc := .d1 }
+  | none =>
+    if l.raising then
+      (if l.bg then setLoc s t { l with pc := .idle, bg := false, raising := false, cb := none }
+       else setLoc s t { l with pc := .idle, result := some .eof, raising := false, cb := none })
+    else setLoc s t (leaveServe l)
 
 def markDispatched (s : St) (f : Frame) : St :=
   { s with fstat := fun k => if k = f.id then .dispatched else s.fstat k,
@@ -266,6 +295,7 @@ def stepRun (s : St) (t : Tid) : Option St :=
   | .s2r => doS2r s t (s.loc t)
   | .s3 => some (doS3 s t (s.loc t))
   | .p0 => doP0 s t (s.loc t)
+  | .x0 => some (doX0 s t (s.loc t))
   | .r0 => some (doR0 s t (s.loc t))
   | .n0 => doN0 s t (s.loc t)
   | .n1 => some (doN1 s t (s.loc t))
@@ -294,7 +324,8 @@ def step (s : St) : Actor → Option St
              then some (setLoc s t { s.loc t with pc := .b0, bg := true }) else none
   | .stop t => if (s.loc t).pc = .b0 then some (setLoc s t { s.loc t with pc := .idle, bg := false }) else none
   | .run t => stepRun s t
-  | .peer q exc v => if q ∈ s.outstanding then some (doPeer s q exc v) else none
+  | .peer q exc v => if q ∈ s.outstanding ∧ s.eof = false then some (doPeer s q exc v) else none
+  | .peerEof => if s.eof = false then some { s with eof := true } else none
   | .tick d => some { s with now := s.now + d }
 
 inductive Reachable : St → Prop
@@ -324,7 +355,7 @@ theorem reachable_run {s s' : St} (h : Reachable s) : ∀ (as : List Actor) , ru
 
 /-- blocked inside `poll()`: nothing to read and the deadline not reached -/
 def blockedInPoll (s : St) (t : Tid) : Bool :=
-  (s.loc t).pc = .p0 && s.chan.isEmpty && !expiredAt (s.loc t).dl s.now
+  (s.loc t).pc = .p0 && s.chan.isEmpty && !expiredAt (s.loc t).dl s.now && !s.eof && !s.closed
 
 /-- asleep on the condition: not notified and the deadline not reached -/
 def blockedOnCond (s : St) (t : Tid) : Bool :=
